@@ -50,15 +50,15 @@ type srcOut struct {
 	Eff      [4]*[4]string `json:"eff"` // Eff[s][c]: only channel c carries source s's value
 }
 
-var wordPool = []string{"a", "b", "x1", "foo", "Bar", "a b", "x=y", "k=v;w", "1,2", "é€", "q\"r", "it's", "#c", "!d", "a\\b", " lead", "trail ", "", "-dash", "tab\there", "UPPER", "http://h:1/p?q=1"}
+var wordPool = []string{"a", "b", "x1", "foo", "Bar", "a b", "x=y", "k=v;w", "1,2", "é€", "q\"r", "it's", "#c", "!d", "a\\b", " lead", "trail ", "", "-dash", "tab\there", "UPPER", "http://h:1/p?q=1", ",", ";", " ", "=", ",;,", "\""}
 
 var special = map[string][]string{
 	"proxy.strategy":                {"rr", "rnd", "bogus"},
 	"proxy.matcher":                 {"prefix", "glob", "iprefix", "nope"},
 	"ui.access":                     {"ro", "rw", "xx"},
 	"proxy.noroutestatus":           {"100", "404", "503", "999", "99", "1000"},
-	"proxy.addr":                    {":1234", ":1234;proto=tcp", "1.2.3.4:80;rt=1s;wt=2s", ":80,:81;proto=grpc", ":443;cs=nosuch", ":1;proto=\"tcp+sni\"", ":1;pxyproto=true", "a=b=c", ""},
-	"ui.addr":                       {":9998", "1.2.3.4:80;proto=http", ":1;rt=5s", ":1,:2", "\"x"},
+	"proxy.addr":                    {":1234", ":1234;proto=tcp", "1.2.3.4:80;rt=1s;wt=2s", ":80,:81;proto=grpc", ":443;cs=nosuch", ":1;proto=\"tcp+sni\"", ":1;pxyproto=true", "a=b=c", "", ",", ";;", " "},
+	"ui.addr":                       {":9998", "1.2.3.4:80;proto=http", ":1;rt=5s", ":1,:2", "\"x", ",", ";", " ", ";=;"},
 	"proxy.cs":                      {"cs=a;type=file;cert=c.pem;key=k.pem", "cs=b;type=path;cert=/p;refresh=5s", "cs=c;type=http;cert=u;hdr=A: b", "cs=a", ""},
 	"proxy.auth":                    {"name=a;type=basic;file=p.htpasswd", "name=b;type=basic;file=f;realm=r;refresh=2s", "name=c;type=x", ""},
 	"bgp.peers":                     {"address=1.2.3.4;asn=65001", "address=5.6.7.8;port=179;multihop=true,address=9.9.9.9", "asn=x", ""},
@@ -450,6 +450,66 @@ type robIn struct {
 	Args  [][2]string `json:"args"`
 	Env   []string    `json:"env"`
 	Props *string     `json:"props"`
+	// degenerate-value cases: one flag gets a kind-directed degenerate value from one source
+	Focus     string `json:"focus,omitempty"`
+	FocusKind string `json:"focus_kind,omitempty"`
+}
+
+// kind-directed degenerate values: empty, separators only, blanks only, lone operators, dangling quotes and
+// escapes for anything string-like (every kvslice/listener/auth/cert-source option is a string flag);
+// empty, sign only, overflow, wrong syntax for numbers and durations; separator-only lists for slices
+var degenerate = map[string][]string{
+	"string": {"", ",", ";", ",;,", ";;", ",,", " ", "   ", "\t", " , ", " ; ", "=", "==", ";=;", ",=,", "a=", "=a", "=;", ";a=b", "a=b;", ",a=b", "a=b,", ";a=b;", ",a=b,",
+		"\"", "'", "\"\"", "''", "\"a", "a=\"b", "a=\"b\\", "\\", "a=b;;,;;", "a;b;c", "a,b,c", ";,;=", "\" \"", "cs=", "cs=;", ":0", ":", "proto=", "rt=", "=:1", "{{", "{{ x }}", "(", "[", "*", "\x00", "\n"},
+	"bool":     {"", " ", "2", "yes", "tru", "-", "TRUE ", "0x1"},
+	"int":      {"", " ", "-", "+", "--1", "99999999999999999999", "-99999999999999999999", "9223372036854775808", "0x", "1e3", " 1", "1 ", "1.0", "٣", "_"},
+	"uint":     {"", " ", "-", "+", "-1", "99999999999999999999", "18446744073709551616", "0x", "1.5", "_"},
+	"float":    {"", " ", "-", "+", "e", ".", "1e999", "-1e999", "1e-999", "0x1p", "1,5", "1..2"},
+	"duration": {"", " ", "-", "+", "1", "s", "1x", "9999999999h", "-9999999999h", "1h-1m", ".s", "1e3s", "1 s"},
+	"numlist":  {"", ",", " , ", ",,", " ", "a", "1,a", "1;2", "1e999", "-"},
+	"value":    {"", ",", " , ", ",,", " ", ";", "=", "\"", ",a,", "a,,b"},
+}
+
+func degenerateValue(r *hx.Rand, fi flagInfo) string {
+	vs, ok := degenerate[fi.Kind]
+	if !ok {
+		vs = degenerate["string"]
+	}
+	return r.Pick(vs)
+}
+
+// genDegenerate: the k-th degenerate case walks flags × sources (every flag from every source), the value is
+// drawn from the kind's list.  The command line carries the value only when `flag` accepts it (otherwise the
+// process would exit); such a case is moved to the prefixed variable.
+func genDegenerate(r *hx.Rand, k int) robIn {
+	var usable []flagInfo
+	for _, f := range flags() {
+		if f.Name != "cfg" && f.Name != "v" && f.Name != "version" {
+			usable = append(usable, f)
+		}
+	}
+	fi := usable[k%len(usable)]
+	src := (k / len(usable)) % 4
+	v := degenerateValue(r, fi)
+	in := robIn{Args: [][2]string{}, Env: []string{}, Focus: fi.Name, FocusKind: fi.Kind}
+	if src == 0 && !cmdlineOK(fi.Name, v) {
+		src = 1
+	}
+	switch src {
+	case 0:
+		in.Args = append(in.Args, [2]string{fi.Name, v})
+	case 1:
+		in.Env = append(in.Env, recase(r, envVarName("FABIO_", fi.Name))+"="+v)
+	case 2:
+		in.Env = append(in.Env, recase(r, envVarName("", fi.Name))+"="+v)
+	case 3:
+		t := fi.Name + " = " + escProp(v) + "\n"
+		if r.Chance(1, 4) {
+			t = fi.Name + "=" + v + "\n" // unescaped, as a user would type it
+		}
+		in.Props = &t
+	}
+	return in
 }
 
 type robOut struct {
@@ -585,9 +645,18 @@ func init() {
 			robIn{Args: [][2]string{}, Env: []string{}, Props: str("glob.cache.size = 0\n")},
 			robIn{Args: [][2]string{{"glob.cache.size", "1"}}, Env: []string{}},
 			robIn{Args: [][2]string{}, Env: []string{}, Props: str("a = ${b}\nb = ${a}\n")},
+			robIn{Args: [][2]string{{"ui.addr", ","}}, Env: []string{}, Focus: "ui.addr", FocusKind: "string"},
+			robIn{Args: [][2]string{}, Env: []string{"FABIO_UI_ADDR=;"}, Focus: "ui.addr", FocusKind: "string"},
+			robIn{Args: [][2]string{}, Env: []string{"ui_addr= "}, Focus: "ui.addr", FocusKind: "string"},
+			robIn{Args: [][2]string{}, Env: []string{}, Props: str("ui.addr = ;;,\n"), Focus: "ui.addr", FocusKind: "string"},
+			robIn{Args: [][2]string{{"proxy.addr", ",;,"}}, Env: []string{}, Focus: "proxy.addr", FocusKind: "string"},
+			robIn{Args: [][2]string{}, Env: []string{"FABIO_PROXY_CS=="}, Focus: "proxy.cs", FocusKind: "string"},
 		},
 		Gen: func(r *hx.Rand, i int) interface{} {
 			fl := flags()
+			if i%2 == 1 {
+				return genDegenerate(r, i/2)
+			}
 			in := robIn{Args: [][2]string{}, Env: []string{}}
 			for n := r.Range(0, 2); n > 0; n-- {
 				fi := fl[r.Intn(len(fl))]
